@@ -708,6 +708,35 @@ func (g *genState) randPrim(c *Ctx, inFn bool, extra []int) prim {
 	return prim{kind: "AL", x: target(), es: ints(1, 9)}
 }
 
+// a statement for a loop body: no feedback that would double a value on every iteration
+// (sources are the loop variable or integers; a target is read only as the left operand of +)
+func (g *genState) loopPrim(c *Ctx, e int) prim {
+	x := c.R.Intn(nVars)
+	if v, ok := g.pick(c, isCont); ok && c.R.Pct(70) {
+		x = v
+	}
+	el := I(int64(c.R.Intn(50)))
+	if c.R.Pct(50) {
+		el = V(e)
+	}
+	switch c.R.Intn(8) {
+	case 0, 1:
+		return prim{kind: "IS", x: x, i: int64(c.R.Intn(12)), e: el}
+	case 2:
+		return prim{kind: "IS", x: e, i: int64(c.R.Intn(10)), e: I(int64(c.R.Intn(50)))}
+	case 3:
+		return prim{kind: "PL", x: x, y: x, e: el}
+	case 4:
+		return prim{kind: "PL", x: x, y: e, e: I(int64(c.R.Intn(50)))}
+	case 5:
+		return prim{kind: "DL", x: x, i: int64(c.R.Intn(24))}
+	case 6:
+		return prim{kind: "IN", x: x, i: int64(c.R.Intn(10))}
+	default:
+		return prim{kind: "CP", x: x, y: e}
+	}
+}
+
 func (g *genState) randOp(c *Ctx) op {
 	nb := 0
 	for v := 0; v < nVars; v++ {
@@ -729,11 +758,7 @@ func (g *genState) randOp(c *Ctx) op {
 			n := c.R.Intn(3)
 			o := op{kind: 'F', a: e, b: y}
 			for i := 0; i < n; i++ {
-				p := g.randPrim(c, false, []int{e})
-				if p.kind == "UB" {
-					continue
-				}
-				o.body = append(o.body, p)
+				o.body = append(o.body, g.loopPrim(c, e))
 			}
 			return o
 		}
@@ -759,9 +784,21 @@ func c06Random(c *Ctx, maxOps int) {
 	n := 4 + c.R.Intn(maxOps-3)
 	for i := 0; i < n; i++ {
 		o := g.randOp(c)
-		ops = append(ops, o)
 		se.exec(o.src())
 		g.bs = se.read()
+		tooBig := false
+		for v := 0; v < nVars; v++ {
+			if g.bs[v].present && len(g.bs[v].text) > 3000 {
+				tooBig = true
+			}
+		}
+		if tooBig { // drop the statement that blew a value up and end the sequence here
+			break
+		}
+		ops = append(ops, o)
+	}
+	if len(ops) == 0 {
+		return
 	}
 	c06Seq(c, ops, c.R.Intn(4))
 }
